@@ -412,6 +412,15 @@ def run(ctx):
     one = [p for p in paths if p.returns and N.mk_cmp("==", ("call", ("free", "len"), (pad,), ()), N.const(1)) in p.guards()]
     ok = bool(one) and all(any(e.kind == "NEWSTREAM" and e["args"] and e["args"][0][0] == "call" and e["args"][0][1][0] == "attr" and e["args"][0][1][2] == "rstrip" and e["args"][0][2] == (pad,) for e in p.events) for p in one)
     ctx.ob("C03.R5", fi, ok, "NullStripped strips the pad byte from the right only", key="NullStripped rstrip")
+    # a payload that fits exactly is accepted: the over-length rejection of Padded and FixedSized is `pad < 0`, strictly
+    for cls in ("Padded", "FixedSized"):
+        for meth in ("_parse", "_build"):
+            fi, paths = own_method_paths(ctx, cls, meth)
+            over = [c for p in paths if p.outcome[0] == "raise" and p.outcome[1].get("cls") == "PaddingError" for c in p.guards()[-1:]]
+            strict = [c for c in over if c[0] == "cmp" and c[1] in ("<", ">")]
+            loose = [c for c in over if c[0] == "cmp" and c[1] in ("<=", ">=") and not (N.is_int(c[3]) and c[3][2] != 0)]
+            if over:
+                ctx.ob("C03.R5", fi, bool(strict) and not loose, "%s.%s rejects only a payload that is too long (strict comparison: an exact fit passes)" % (cls, meth), key="%s %s exact fit" % (cls, meth))
     ctx.floor("C03.R5", 17)
     from . import C04
     C04.shared_obligations(ctx, "C03.R8", {"FormatField", "BytesInteger", "BitsInteger", "VarInt", "ZigZag", "Flag", "Bytes", "GreedyBytes", "StringEncoded", "Padded", "Aligned", "Prefixed",
